@@ -297,6 +297,44 @@ int main(int argc, char** argv)
       if(!ok2 || !j2 || out2 != want2 || err2 != wantErr2 || code2 != 5)
         vf::violation("C20:process:overlap", cs, "second process: read ok=" + vf::fmt("%d join=%d code=%u", (int)ok2, (int)j2, (unsigned)code2) + " stdout '" + vf::show(out2) + "' stderr '" + vf::show(err2) + "'");
     }
+    // (e) the same Process object used for a second child after the first one ended: nothing of the first run (descriptors, exit code,
+    //     stream set) may show in the second
+    for(int first = 0; first < 3; ++first) for(int end1 = 0; end1 < 2; ++end1) for(int second = 0; second < 3; ++second) for(int closeIn = 0; closeIn < 2; ++closeIn)
+    {
+      if(!sh.take()) continue;
+      static const uint SETS1[] = {Process::stdinStream | Process::stdoutStream, Process::stdinStream | Process::stdoutStream | Process::stderrStream, Process::stdoutStream | Process::stderrStream};
+      static const uint SETS2[] = {Process::stdoutStream, Process::stdoutStream | Process::stderrStream, Process::stdinStream | Process::stdoutStream};
+      uint s1 = SETS1[first], s2 = SETS2[second];
+      std::string cs = vf::fmt("one Process object, two children: first streams=%u %s stdin, %s; second streams=%u", s1, closeIn ? "closing" : "not closing", end1 ? "killed" : "joined", s2);
+      vf::crumb("launch-reuse", sh.token(), cs);
+      vf::watchdog_arm(30000);
+      vf::hit("reuse_runs"); vf::hit("distinct_nontrivial");
+      bool in1 = (s1 & Process::stdinStream) != 0, se1 = (s1 & Process::stderrStream) != 0;
+      const char* av1[] = {"argv0", "io", "4", se1 ? "4" : "0", "7", in1 ? "1" : "0"};
+      Process p;
+      if(!p.open(S(child), 6, (char* const*)av1, s1)) { vf::violation("C20:process:open", cs, "open of the first child failed"); continue; }
+      if(in1) { if(p.write("wxyz", 4) != 4) vf::violation("C20:process:stdin", cs, "write to the first child's stdin failed"); if(closeIn || !end1) p.close(Process::stdinStream); }
+      std::string out1, err1; uint32 code1 = 99;
+      if(end1) p.kill();
+      else
+      {
+        bool ok1 = readAll(p, s1 & (Process::stdoutStream | Process::stderrStream), out1, err1);
+        bool j1 = p.join(code1);
+        if(!ok1 || !j1 || code1 != 7 || out1.size() < 4 || out1.substr(out1.size() - 4) != "abcd" || (se1 && err1 != "ABCD"))
+          vf::violation("C20:process:reuse", cs, "first child: " + vf::fmt("read ok=%d join=%d code=%u", (int)ok1, (int)j1, (unsigned)code1) + " stdout '" + vf::show(out1) + "' stderr '" + vf::show(err1) + "'");
+      }
+      bool in2 = (s2 & Process::stdinStream) != 0, se2 = (s2 & Process::stderrStream) != 0;
+      const char* av2[] = {"argv0", "io", "3", se2 ? "3" : "0", "5", in2 ? "1" : "0"};
+      if(!p.open(S(child), 6, (char* const*)av2, s2)) { vf::violation("C20:process:reuse", cs, "open of the second child on the same object failed"); continue; }
+      if(in2) { if(p.write("pq", 2) != 2) vf::violation("C20:process:reuse", cs, "write to the second child's stdin failed"); p.close(Process::stdinStream); }
+      std::string out2, err2; uint32 code2 = 99;
+      bool ok2 = readAll(p, s2 & (Process::stdoutStream | Process::stderrStream), out2, err2);
+      bool j2 = p.join(code2);
+      unsigned long sum2 = 0; if(in2) { sum2 = sum2 * 31 + 'p'; sum2 = sum2 * 31 + 'q'; }
+      std::string want2 = vf::fmt("IN %lu %lu\nabc", in2 ? 2ul : 0ul, sum2);
+      if(!ok2 || !j2 || code2 != 5 || out2 != want2 || err2 != (se2 ? "ABC" : ""))
+        vf::violation("C20:process:reuse", cs, "second child: " + vf::fmt("read ok=%d join=%d code=%u", (int)ok2, (int)j2, (unsigned)code2) + " stdout '" + vf::show(out2) + "' (expected '" + vf::show(want2) + "') stderr '" + vf::show(err2) + "'");
+    }
     // (c) exit codes
     for(int code = 0; code < 256; ++code)
     {
